@@ -31,6 +31,34 @@ func reg(name string, f func(r *json.Object, p *document.Presence, v int)) {
 	Ops[name] = &Op{Name: name, Apply: f}
 }
 
+// Facts are observations the editing calls make about the execution in
+// progress (reset at the start of every Run). They let a check name a known
+// root cause by what actually happened instead of by the names of the edit
+// kinds involved:
+//
+//	array-set-on-moved-element: Array.Set*(index) was called on an element that,
+//	in the caller's own replica, no longer sits in the position slot it was
+//	created in (it was moved before).
+var Facts = map[string]bool{}
+
+// noteSetTarget records whether the idx-th visible element of a has left its
+// original position slot.
+func noteSetTarget(a *json.Array, idx int) {
+	i := 0
+	for _, n := range a.RGANodes() {
+		if n.IsRemoved() {
+			continue
+		}
+		if i == idx {
+			if el, pos := n.Element(), n.PositionCreatedAt(); el != nil && pos != nil && pos.Key() != el.CreatedAt().Key() {
+				Facts["array-set-on-moved-element"] = true
+			}
+			return
+		}
+		i++
+	}
+}
+
 // OpNames returns all op names sorted.
 func OpNames() []string {
 	var out []string
@@ -96,6 +124,12 @@ func init() {
 	reg("init.none", func(r *json.Object, _ *document.Presence, v int) {})
 	reg("init.o", func(r *json.Object, _ *document.Presence, v int) {
 		r.SetNewObject("o").SetInteger("k1", 0).SetInteger("k2", 0)
+	})
+	// an object whose first member is itself an object
+	reg("init.oo", func(r *json.Object, _ *document.Presence, v int) {
+		o := r.SetNewObject("o")
+		o.SetNewObject("k1").SetInteger("x", 0)
+		o.SetInteger("k2", 0)
 	})
 	reg("init.a", func(r *json.Object, _ *document.Presence, v int) {
 		r.SetNewArray("a").AddInteger(1, 2, 3)
@@ -240,11 +274,13 @@ func init() {
 	})
 	reg("a.set0", func(r *json.Object, _ *document.Presence, v int) {
 		if a := arr(r); a != nil && a.Len() > 0 {
+			noteSetTarget(a, 0)
 			a.SetInteger(0, v)
 		}
 	})
 	reg("a.setL", func(r *json.Object, _ *document.Presence, v int) {
 		if a := arr(r); a != nil && a.Len() > 0 {
+			noteSetTarget(a, a.Len()-1)
 			a.SetInteger(a.Len()-1, v)
 		}
 	})
